@@ -115,39 +115,39 @@ def statsAdd (s : IndexState K) (wasZero : Bool) (size : Nat) : IndexState K :=
 /-- `apply_logical_op`, Put arm -/
 def applyPut (s : IndexState K) (k : K) (h : Bytes) (size : Nat) :
     Except IdxPanic (IndexState K × List Bytes) :=
-  let (m', prev) := kInsert lt s.map k ⟨h, size⟩
-  let s := { s with map := m' }
-  match prev with
+  let ins := kInsert lt s.map k ⟨h, size⟩
+  let s0 := { s with map := ins.1 }
+  match ins.2 with
   | none =>
-    let (rc', wz) := incRef s.rc h
-    .ok (statsAdd { s with rc := rc' } wz size, [])
+    let r := incRef s0.rc h
+    .ok (statsAdd { s0 with rc := r.1 } r.2 size, [])
   | some p =>
     if p.hash ≠ h then
-      match decRef s.rc p.hash with
+      match decRef s0.rc p.hash with
       | .error e => .error e
       | .ok (rc1, freed) =>
-        let s1 := { s with rc := rc1 }
+        let s1 := { s0 with rc := rc1 }
         match (match freed with
                | some _ => statsDrop s1 p.size
                | none => .ok s1) with
         | .error e => .error e
         | .ok s2 =>
-          let (rc2, wz) := incRef s2.rc h
-          .ok (statsAdd { s2 with rc := rc2 } wz size, freed.toList)
+          let r := incRef s2.rc h
+          .ok (statsAdd { s2 with rc := r.1 } r.2 size, freed.toList)
     else if p.size ≠ size then .error .sizeMismatch
-    else .ok (s, [])
+    else .ok (s0, [])
 
 /-- `apply_logical_op`, Remove arm: one key -/
 def applyRemoveKey (s : IndexState K) (k : K) : Except IdxPanic (IndexState K × List Bytes) :=
-  let (m', prev) := kErase s.map k
-  match prev with
-  | none => .ok (s, [])       -- (`kErase` of an absent key leaves the map unchanged)
+  let er := kErase s.map k
+  match er.2 with
+  | none => .ok (s, [])       -- (`BTreeMap::remove` of an absent key leaves the map unchanged)
   | some p =>
-    let s := { s with map := m' }
-    match decRef s.rc p.hash with
+    let s0 := { s with map := er.1 }
+    match decRef s0.rc p.hash with
     | .error e => .error e
     | .ok (rc1, freed) =>
-      let s1 := { s with rc := rc1 }
+      let s1 := { s0 with rc := rc1 }
       match freed with
       | some h =>
         match statsDrop s1 p.size with
